@@ -1,4 +1,9 @@
 import FeatherModel.Lemmas.ClassReadFinal
+import FeatherModel.Lemmas.ArmsConstants
+import FeatherModel.Lemmas.ArmsReader
+import FeatherModel.Lemmas.ArmsReaderJvms
+import FeatherModel.Lemmas.ArmsTags
+import FeatherModel.Lemmas.ArmsHarness
 
 /-!
 # C01 — the class reader delivers every fact of a valid class file accurately
@@ -277,5 +282,205 @@ theorem parameter_annotations_dropped_witness (p : Pool) (bsms : Option (List Bs
         sRIPA ≠ sRIA ∧ sRIPA ≠ sRVTA ∧ sRIPA ≠ sRITA ∧ sRIPA ≠ sRVPA by decide,
       show sRVPA ≠ sDeprecated ∧ sRVPA ≠ sSynthetic ∧ sRVPA ≠ sCode ∧ sRVPA ≠ sExceptions ∧ sRVPA ≠ sSignature ∧ sRVPA ≠ sRVA ∧
         sRVPA ≠ sRIA ∧ sRVPA ≠ sRVTA ∧ sRVPA ≠ sRITA by decide]
+
+/-! ## ═══ generated tables: the translator tie (independent of any test generator) ═══
+
+Everything above is about the hand-written model, which is tied to the Rust code by differential testing. This section
+ties it a second way. `translate/constants_to_lean.py` and `translate/insn_arms_to_lean.py` read `duke/src/class_constants.rs`,
+`class_reader.rs` (both loops of `read_code`, `read_stack_map_frame`, `read_verification_type_info`, the `element_value`
+readers), `class_reader/pool.rs`, `tree/**` (flag structs) and `tree/method/code.rs` (`enum Instruction`) before every build
+and write what they find as data into `Gen/Constants.lean` and `Gen/ReaderArms.lean`; `Spec/Opcodes.lean` is a transcription
+of the JVMS tables. The theorems compare the three — generated tables, hand-written model, JVMS — over the WHOLE tables
+(all 256 opcode bytes, all tags), by kernel evaluation. Vocabulary: `Lemmas/ArmsDefs.lean`. -/
+
+section GeneratedTables
+
+open Arms JvmsTables
+
+/-- the transcribed JVMS tables have the shape the lookups assume: `opcodes` lists 0..201 in order (so position = opcode);
+reserved opcodes lie above; `forms`, `wideForms`, `negations` name real opcodes, `negations` is an involution on the
+16-bit conditional branches -/
+theorem jvms_tables_consistent :
+    opcodes.map (·.1) = List.range 202 ∧
+    (reserved.all fun r => decide (202 ≤ r.1 ∧ r.1 < 256)) = true ∧
+    (forms.all fun f => (mnemonic? f.1).isSome && (mnemonic? f.2.1).isSome && !(forms.lookup f.2.1).isSome) = true ∧
+    (wideForms.all fun f => (mnemonic? f.1).isSome) = true ∧
+    (negations.all fun f => negations.lookup f.2 == some f.1 && operands? f.1 == some .branch16) = true :=
+  Arms.jvms_tables_consistent
+
+/-- **Every constant of `class_constants.rs` is the JVMS value under the JVMS name.** (1) the modules of the file are exactly
+the seven tables below, no constant outside them, every value fits its Rust type; (2) `opcode`: the 205 constants are the
+202 opcodes of JVMS §6.5 plus the 3 reserved ones, in opcode order, each named by the upper-cased mnemonic — with the one
+exception that 0xbe `arraylength` is spelt `ARRAYLENGHT`; (3) `pool` = Table 4.4-A, `pool::method_handle_reference` =
+Table 5.4.3.5-A (names up to case / underscores); (4) `type_annotation` = Tables 4.7.20-A/B, `atype` = Table 6.5.newarray-A,
+`MAGIC`; (5) `attribute`: every constant is named like its text, and the texts are exactly the 30 predefined attributes of
+Table 4.7-A plus the CLDC `StackMap`. -/
+theorem constants_are_jvms :
+    ((Gen.Constants.numeric.map fun m => (m.1, m.2.map fun e => (e.1, e.2.1))) =
+      [([], Gen.Constants.rootConsts), (jstr "pool", Gen.Constants.poolConsts),
+       (jstr "pool::method_handle_reference", Gen.Constants.poolMethodHandleReferenceConsts),
+       (jstr "type_annotation", Gen.Constants.typeAnnotationConsts), (jstr "opcode", Gen.Constants.opcodeConsts),
+       (jstr "atype", Gen.Constants.atypeConsts)] ∧
+     Gen.Constants.strings = [(jstr "attribute", Gen.Constants.attributeConsts)] ∧
+     Gen.Constants.modules = [[], jstr "pool", jstr "pool::method_handle_reference", jstr "attribute", jstr "type_annotation",
+       jstr "opcode", jstr "atype"] ∧
+     (Gen.Constants.numeric.all fun m => m.2.all fun e => decide (e.2.1 < 2 ^ e.2.2)) = true) ∧
+    Gen.Constants.opcodeConsts.map (fun e => (e.2, lower e.1)) =
+      (opcodes.map (fun r => (r.1, r.2.1)) ++ reserved).map
+        (fun r => (r.1, if r.1 = 0xbe then jstr "arraylenght" else r.2)) ∧
+    (Gen.Constants.poolConsts.map (fun e => (e.2, squash e.1)) = poolTags.map (fun r => (r.1, squash r.2.1)) ∧
+     Gen.Constants.poolMethodHandleReferenceConsts.map (fun e => (e.2, squash e.1)) =
+       methodHandleKinds.map (fun r => (r.1, squash r.2))) ∧
+    (Gen.Constants.typeAnnotationConsts.map (fun e => (e.2, squash e.1)) = targetTypes.map (fun r => (r.1, squash r.2.1)) ∧
+     Gen.Constants.atypeConsts.map (fun e => (e.2, e.1)) = arrayTypes ∧
+     Gen.Constants.rootConsts = [(jstr "MAGIC", JvmsTables.magic)]) ∧
+    ((Gen.Constants.attributeConsts.all fun e => squash e.1 == squash e.2) = true ∧
+     (Gen.Constants.attributeConsts.all fun e => (attributeNames ++ cldcAttributeNames).contains e.2) = true ∧
+     ((attributeNames ++ cldcAttributeNames).all fun n => (Gen.Constants.attributeConsts.map (·.2)).contains n) = true ∧
+     Gen.Constants.attributeConsts.length = (attributeNames ++ cldcAttributeNames).length) :=
+  ⟨Arms.constants_covered, Arms.opcode_constants, Arms.pool_constants, Arms.other_constants, Arms.attribute_constants⟩
+
+/-- the access-flag structs of `duke/src/tree` (`impl From<u16> for X` and `impl From<X> for u16`): both directions use the
+same masks, the structs are the nine of the specification, and **all of them** carry exactly the flags and masks of the JVMS
+tables (4.1-B, 4.7.6-A, 4.5-A, 4.6-A, §4.7.24, §4.7.25 module / requires / exports / opens). Full strength since repo fix
+ccf470b (`ModuleFlags::is_open` used `0x0010`; found by this comparison, invisible to the differential run because model and
+harness mirrored the code). -/
+theorem access_flags_are_jvms :
+    Gen.Constants.flagsRead = Gen.Constants.flagsWrite ∧ Gen.Constants.flagsRead = flagSpecs :=
+  ⟨Arms.flags_read_write, Arms.flags_jvms⟩
+
+/-- regression of ccf470b: `ModuleFlags` reads and writes `is_open` with `ACC_OPEN = 0x0020` of JVMS §4.7.25 (was `0x0010`:
+an `open module` was read as not open, a tree with `is_open` was written with an undefined bit) -/
+theorem module_open_flag_is_jvms :
+    Gen.Constants.flagsRead.lookup (jstr "ModuleFlags") =
+      some [(jstr "open", 0x0020), (jstr "synthetic", 0x1000), (jstr "mandated", 0x8000)] ∧
+    moduleFlags = [(jstr "open", 0x0020), (jstr "synthetic", 0x1000), (jstr "mandated", 0x8000)] :=
+  Arms.module_open_flag
+
+/-- the constants the hand-written model hard-codes are the ones of the Rust source: each of its 31 attribute names is the
+text of the `class_constants::attribute` constant it mirrors (and there is no 32nd), each of its flag masks is the `|` of the
+masks of the flag struct it mirrors -/
+theorem model_constants_match :
+    (modelAttributeNames.all fun e => Gen.Constants.attributeConsts.lookup e.1 == some e.2) = true ∧
+    modelAttributeNames.length = Gen.Constants.attributeConsts.length ∧
+    (modelMasks.all fun e => maskOf Gen.Constants.flagsRead e.1 == e.2) = true ∧
+    modelMasks.map (·.1) = Gen.Constants.flagsRead.map (·.1) :=
+  Arms.model_constants
+
+/-- **For every opcode byte, the hand-written model takes the arm the Rust code takes, in both loops of `read_code`.**
+Pass 1: same class (skip `n` bytes / 16-bit branch / 32-bit branch / tableswitch / lookupswitch / `wide` / error).
+Pass 2: the model rejects the byte iff the Rust `match` has no arm for it or a `bail!` arm; `wide` is the same byte; the
+model's operand-less arm `simple` covers exactly the arms `opcode::X => Instruction::Y` for a unit variant `Y`; and
+whenever the model decodes an instruction `i` at that byte — whatever the pool, the labels, the operand bytes — the Rust
+arm builds the constructor named like `i` (`insnMnemonic`, compared up to case and underscores), reads exactly as many
+operand bytes as the model consumed (where the arm fixes them: everything except the switches), and for `*load_<n>` /
+`*store_<n>` the index the Rust arithmetic (`(opcode - base) & mask`) gives is the model's. `i` is in `RdDomain`. -/
+theorem reader_arms_match_model (p : Pool) (bsms : Option (List Bsm)) (l : Labels) (pc op : Nat) (rest : Bytes) (hop : op < 256) :
+    p1Code (p1Kind op) = p1Class op ∧
+    (rArm op = .bail ↔ opKind op = .invalid) ∧
+    (rArm op = .wide ↔ opKind op = .wide) ∧
+    ((rArm op).isUnit = true ↔ opKind op = .simple) ∧
+    (rArm op = .bail → decodeInsn p bsms l (pc, op :: rest) = err) ∧
+    (∀ i c', rArm op ≠ .wide → decodeInsn p bsms l (pc, op :: rest) = ok (i, c') →
+      ∃ ctor, (rArm op).ctor? = some ctor ∧ squash (ctorName ctor) = squash (insnMnemonic i) ∧
+        (∀ n, (rArm op).operandBytes? = some n → c'.1 = pc + 1 + n) ∧
+        (∀ j, (rArm op).implicitIndex? = some j → insnLocal? i = some j) ∧ RdDomain i) :=
+  Arms.reader_arms_match_model p bsms l pc op rest hop
+
+/-- the same for the two `wide` sub-matches: pass 1 skips what the Rust sub-match skips (or fails where it bails), pass 2
+fails where it bails and otherwise builds the constructor the Rust sub-arm names, consuming the bytes its primitives read -/
+theorem reader_wide_arms_match_model (l : Labels) (pc w : Nat) (rest : Bytes) (hw : w < 256) :
+    pass1Step l (pc, Gen.ReaderArms.wideOpcode :: w :: rest) =
+      (match p1WideSkip? w with
+        | some n => (do let c ← cSkip n (pc + 2, rest); pure (l, c))
+        | none => err) ∧
+    ((rWideArm w).ctor? = none → decodeWide (pc, w :: rest) = err) ∧
+    (∀ i c', decodeWide (pc, w :: rest) = ok (i, c') →
+      ∃ ctor n, (rWideArm w).ctor? = some ctor ∧ squash (ctorName ctor) = squash (insnMnemonic i) ∧
+        (rWideArm w).operandBytes? = some n ∧ c'.1 = pc + 1 + n ∧ RdDomain i) :=
+  Arms.reader_wide_arms_match_model l pc w rest hw
+
+/-- **The Rust reader's dispatch is the JVMS instruction set** (no model involved). For every opcode byte: there is an
+instruction-building arm exactly for the opcodes 0..201 of §6.5 — every one handled, everything from 202 up an error —;
+plain operands / branches / switches / `wide` are told apart as in the JVMS; the constructor is named like the mnemonic
+of the instruction's general form (`iload_2` ↦ `ILoad`, `ldc2_w` ↦ `Ldc`, `goto_w` ↦ `Goto`); the arm reads as many operand
+bytes as the JVMS says; `<t>load_<n>` / `<t>store_<n>` get the index `<n>`; the first loop classifies the opcode as the
+operand layout demands; both `wide` sub-matches accept exactly the opcodes of JVMS *wide* with its two formats. -/
+theorem arms_are_jvms (op : Nat) (hop : op < 256) :
+    (rArm op = .bail ↔ mnemonic? op = none) ∧
+    (rArm op).operandClass = jvmsOperandClass (operands? op) ∧
+    (rArm op ≠ .wide → ((rArm op).ctor?.map fun c => squash (ctorName c)) = (mnemonic? (baseOf op)).map squash) ∧
+    (∀ c, (rArm op).ctor? = some c → (rArm op).operandBytes? = jvmsOperandBytes (operands? op)) ∧
+    (rArm op).implicitIndex? = implicitIndex? op ∧
+    p1Class op = jvmsP1Class (operands? op) ∧
+    p1WideSkip? op = wideForms.lookup op ∧
+    ((rWideArm op).ctor?.map fun c => (squash (ctorName c), (rWideArm op).operandBytes?)) =
+      (wideForms.lookup op).map fun n => (((mnemonic? op).map squash).getD [], some n) :=
+  Arms.arms_are_jvms op hop
+
+/-- the small tag dispatches of the Rust reader are the JVMS tables: `PoolRead::read` (tag, entry kind, payload bytes,
+`bytes[length]` or not, 1 or 2 slots) = Table 4.4-A / §4.4.1–11; `read_verification_type_info` = the `ITEM_*` table;
+`read_stack_map_frame` = the `frame_type` ranges with the reserved range bailing, implicit / explicit `offset_delta`, `chop`
+and `append` counting from 251; both `element_value` readers = Table 4.7.16.1-A with the right pool entry kind -/
+theorem tag_arms_are_jvms :
+    (Gen.ReaderArms.poolArms.map fun a => (a.1, squash a.2.1, a.2.2.1.sum, a.2.2.2.1, a.2.2.2.2)) =
+      (poolTags.map fun r => (r.1, squash r.2.1, r.2.2.1.sum, (if r.2.2.2.1 then 1 else 0), r.2.2.2.2)) ∧
+    Gen.ReaderArms.vtypeArms = verificationTypes ∧
+    (((Gen.ReaderArms.frameArms.filter fun a => a.2.2.1 != jstr "bail").map
+        fun a => (a.1, a.2.1, squash a.2.2.1, if a.2.2.2.1 = 0 then some a.2.2.2.2 else none)) =
+      (frameTypes.map fun r => (r.1, r.2.1, squash r.2.2.2.1, r.2.2.2.2)) ∧
+     ((Gen.ReaderArms.frameArms.filter fun a => a.2.2.1 == jstr "bail").map fun a => (a.1, a.2.1)) = [frameReserved] ∧
+     Gen.ReaderArms.chopFrom = JvmsTables.chopFrom ∧ Gen.ReaderArms.appendFrom = JvmsTables.appendFrom) ∧
+    (Gen.ReaderArms.elementArmsNamed = Gen.ReaderArms.elementArmsUnnamed ∧
+     (Gen.ReaderArms.elementArmsNamed.map fun a =>
+        (a.1, squash (if a.2.1 = jstr "Integer" then jstr "int" else a.2.1), getterKind a.2.2)) =
+      (elementValueTags.map fun r => (r.1, squash r.2.1, squash r.2.2))) :=
+  ⟨Arms.pool_arms_jvms, Arms.vtype_arms_jvms, Arms.frame_arms_jvms, Arms.element_arms_jvms⟩
+
+/-- the model's constant-pool entry reader, evaluated on every tag byte (followed by zeros): it accepts exactly the tags
+the Rust `match` has an arm for, with the same entry kind, the same number of payload bytes and the same number of slots -/
+theorem pool_arms_match_model (tag : Nat) (h : tag < 256) :
+    poolProbe tag = (Gen.ReaderArms.poolArms.lookup tag).map fun a => (a.1, a.2.1.sum, a.2.2.2) :=
+  Arms.pool_arms_match_model tag h
+
+/-- the model's `readVType` / `readFrame`, all inputs: a verification type / frame the model reads at tag `t` is the variant
+the Rust arm for `t` builds; where the Rust computes `offset_delta` from the tag so does the model, `chop` counts from the
+same constant; tags the Rust bails on are errors of the model -/
+theorem vtype_frame_arms_match_model (p : Pool) (l l' : Labels) (t : Nat) (s s' : Bytes) (ht : t < 256) :
+    (∀ v, readVType p l (t :: s) = ok (v, l', s') → ∃ extra, Gen.ReaderArms.vtypeArms.lookup t = some (vtypeName v, extra)) ∧
+    (Gen.ReaderArms.vtypeArms.lookup t = none → readVType p l (t :: s) = err) ∧
+    (∀ d f, readFrame p l (t :: s) = ok ((d, f), l', s') →
+      ∃ b, frameArm? t = some (frameName f, b) ∧ (∀ k, b = some k → d = t - k) ∧ (∀ k, f = .chop k → k = Gen.ReaderArms.chopFrom - t)) ∧
+    (frameArm? t = none → readFrame p l (t :: s) = err) :=
+  Arms.vtype_frame_arms_match_model p l l' t s s' ht
+
+/-- the hand-written printing glue of the harness (`harness/src/c01facts.rs`, extracted by
+`translate/harness_glue_to_lean.py`), which the correspondence run trusts: it prints every constructor of `enum Instruction`;
+the opcode it prints for an operand-less instruction, a conditional branch or a field access is an opcode whose arm in
+`read_code` builds exactly that constructor; the kind it prints for `ILoad`.. / `IStore`.. is the offset from `iload` /
+`istore`; everything else is printed under the constructor's own name. So "the model answers `(simple 96)`" and "duke
+delivers `IAdd`" mean the same instruction by the Rust source itself, not only by the harness author's reading. -/
+theorem harness_glue_matches_reader :
+    ((Gen.HarnessGlue.simple ++ Gen.HarnessGlue.branch ++ Gen.HarnessGlue.field ++ Gen.HarnessGlue.load ++
+        Gen.HarnessGlue.store).map (·.1) ++ Gen.HarnessGlue.other.map (·.1)).length = Gen.ReaderArms.ctorNames.length ∧
+    (Gen.ReaderArms.ctorNames.all fun n =>
+      ((Gen.HarnessGlue.simple ++ Gen.HarnessGlue.branch ++ Gen.HarnessGlue.field ++ Gen.HarnessGlue.load ++
+        Gen.HarnessGlue.store).map (·.1) ++ Gen.HarnessGlue.other.map (·.1)).contains n) = true ∧
+    ((Gen.HarnessGlue.simple ++ Gen.HarnessGlue.branch ++ Gen.HarnessGlue.field).all
+      fun e => (rArm e.2).ctor?.map ctorName == some e.1) = true ∧
+    (Gen.HarnessGlue.simple.all fun e => (rArm e.2).isUnit) = true ∧
+    (Gen.HarnessGlue.load.all fun e => (rArm (0x15 + e.2)).ctor?.map ctorName == some e.1) = true ∧
+    (Gen.HarnessGlue.store.all fun e => (rArm (0x36 + e.2)).ctor?.map ctorName == some e.1) = true ∧
+    (Gen.HarnessGlue.other.all fun e => squash e.1 == squash e.2) = true :=
+  Arms.harness_glue_matches_reader
+
+/-- non-vacuity: `0x60` is read as `IAdd`, `0x2c` as `ALoad` with index 2, `0xc4 0x84` as `IInc` with four operand bytes,
+`0xca` (breakpoint) is an error -/
+example : (rArm 0x60).ctor?.map ctorName = some (jstr "IAdd") ∧
+    ((rArm 0x2c).ctor?.map ctorName, (rArm 0x2c).implicitIndex?) = (some (jstr "ALoad"), some 2) ∧
+    ((rWideArm 0x84).ctor?.map ctorName, (rWideArm 0x84).operandBytes?) = (some (jstr "IInc"), some 4) ∧
+    rArm 0xca = .bail := by decide
+
+end GeneratedTables
 
 end Thm.C01
